@@ -151,14 +151,13 @@ Inductive zip3 {A B C} (P : A -> B -> C -> Prop) : list A -> list B -> list C ->
 
 Lemma labels_zip3 : forall m s1 s2 es,
   length s1 = length s2 ->
-  Forall2 (fun p e => paired_edge m p = Some e) (combine s1 s2) es ->
+  Forall2 (nt_edge_rel m) (combine s1 s2) es ->
   zip3 (fun a b l => nt_get m (a, b) = Some l) (map e_lab s1) (map e_lab s2) (map e_lab es).
 Proof.
   induction s1 as [|a s1 IH]; intros [|b s2] es L F; simpl in *; try discriminate.
   - inversion F; subst. constructor.
   - inversion F as [|p e ps es' Hp F']; subst. simpl. constructor.
-    + unfold paired_edge in Hp. simpl in Hp. destruct (nt_get m (e_lab a, e_lab b)); [|discriminate].
-      injection Hp as <-. reflexivity.
+    + destruct Hp as [Hp _]. exact Hp.
     + apply IH; [lia | exact F'].
 Qed.
 
@@ -189,14 +188,14 @@ Proof. intros l1 l2 H. rewrite H. reflexivity. Qed.
 
 (** * the bijection, for a fixed successful run of [conjoin_hrgs] *)
 Section Bijection.
-  Variables (h1 h2 : hrg) (s : elabel) (st : hstate) (m : ntmap).
+  Variables (h1 h2 : hrg) (s : elabel) (st : hstate) (m : ntmap) (base : nat).
   Hypothesis W1 : wf_hrg_b h1 = true.
   Hypothesis W2 : wf_hrg_b h2 = true.
   Hypothesis HM : ntmap_spec h1 h2 m.
   Hypothesis ND : NoDup (map snd (tagged_rules st)).
   Hypothesis TS : forall r i j, In (r, (i, j)) (tagged_rules st) ->
        exists r1 r2, nth_error (all_rules h1) i = Some r1 /\ nth_error (all_rules h2) j = Some r2 /\
-                     conjoinable_model r1 r2 = true /\ conjoin_rules_model r1 r2 m = Ok r.
+                     conjoinable_model r1 r2 = true /\ conjoin_rules_model base r1 r2 m = Ok r.
   Hypothesis TC : forall i j r1 r2,
        nth_error (all_rules h1) i = Some r1 -> nth_error (all_rules h2) j = Some r2 ->
        conjoinable_model r1 r2 = true -> exists r, In (r, (i, j)) (tagged_rules st).
@@ -240,7 +239,7 @@ Section Bijection.
     exists r1, r2. split; [exact H1|]. split; [exact H2|]. split; [exact C|].
     destruct (wf_hrg_rules h1 r1 W1 (nth_error_In _ _ H1)) as [Wr1 _].
     destruct (wf_hrg_rules h2 r2 W2 (nth_error_In _ _ H2)) as [Wr2 _].
-    destruct (conj_nt_sorted _ _ _ _ Wr1 Wr2 C m_values HR) as [F GL].
+    destruct (conj_nt_sorted _ _ _ _ _ Wr1 Wr2 C m_values HR) as [F GL].
     split; [exact GL|]. apply labels_zip3; [|exact F].
     apply conjoinable_nt_length; assumption.
   Qed.
@@ -400,13 +399,13 @@ Proof.
   pose proof (nonterminal_pairs_spec _ _ _ HM) as SP.
   split; [|split].
   - intros t Wt.
-    apply (unpair_then_pair h1 h2 s st m W1 W2 SP ND TS t (h_start h1) (h_start h2) s HS Wt).
+    apply (unpair_then_pair h1 h2 s st m (id_bound h1 h2) W1 W2 SP ND TS t (h_start h1) (h_start h2) s HS Wt).
   - intros t1 t2 Wt1 Wt2 PB.
     destruct (pair_tree (prov_of (s, st)) t1 t2) as [t|] eqn:P.
     + exists t. split; [reflexivity|].
-      apply (pair_then_unpair h1 h2 s st m W1 W2 SP TS t1 t2 (h_start h1) (h_start h2) s t Wt1 Wt2 HS P).
-    + exfalso. apply (proj2 (pair_defined_iff h1 h2 s st m TS TC t1 t2) PB). exact P.
-  - apply (pair_defined_iff h1 h2 s st m TS TC).
+      apply (pair_then_unpair h1 h2 s st m (id_bound h1 h2) W1 W2 SP TS t1 t2 (h_start h1) (h_start h2) s t Wt1 Wt2 HS P).
+    + exfalso. apply (proj2 (pair_defined_iff h1 h2 s st m (id_bound h1 h2) TS TC t1 t2) PB). exact P.
+  - apply (pair_defined_iff h1 h2 s st m (id_bound h1 h2) TS TC).
 Qed.
 
 (** the default of [nth] in [unpair_tree] is never reached on a well-formed derivation *)
